@@ -151,6 +151,8 @@ Proof.
   - eapply T; eassumption.
   - apply IH. assumption.
 Qed.
+Lemma F2_nil {A B} (R : A -> B -> Prop) l : Forall2 R [] l -> l = [].
+Proof. intros H. inversion H. reflexivity. Qed.
 Lemma hrel_refl n m : hrel n m m.
 Proof. apply F2_refl. intros x. left. reflexivity. Qed.
 Lemma hrel_trans n a b c : hrel n a b -> hrel n b c -> hrel n a c.
@@ -1563,10 +1565,6 @@ Definition pm_tail (e : env) (peer : bytes) (peer_port : Z) (from : stransport) 
     else (m4, p1) in
   let x1 := {| x_learned := l1; x_p := p2; x_conns := x_conns x; x_world := x_world x; x_outs := x_outs x |} in
   Ok (fst (handle_message e from m5 x1)).
-(* [reaches e from m x m4 x1 x']: the request m of context x is handed to HandleMessage as m4 in
-   context x1: the headers other than Via keep their meaning, the load-balancing half is untouched *)
-Definition handed (e : env) (from : stransport) (m : message) (x : ctx) (x' : ctx) : Prop :=
-  exists m4 x1, keeps NQ m m4 /\ hvals (s2b "Route") (m_headers m) = [] -> hvals (s2b "Route") (m_headers m4) = [].
 Lemma pm_tail_spec e peer port from m3 p1 l1 x x' m :
   keeps NP m m3 -> is_request m = true -> lb_eq (x_p x) p1 ->
   pm_tail e peer port from m3 p1 l1 x = Ok x' ->
@@ -1582,9 +1580,78 @@ Proof.
   rewrite R4. intros H. injection H as <-.
   eexists m4, _. split; [exact K04|]. split; [|split; [|split; [|reflexivity]]]; [|exact LB|reflexivity].
   intros HR. destruct K as [_ K]. specialize (K (s2b "Route") ltac:(in_names)). unfold hrel in K. rewrite HR in K.
-  inversion K as [E|]. subst m4. unfold mtry, try_remove_top_route, mbind.
+  assert (E : hvals (s2b "Route") (m_headers m3) = []) by (apply (F2_nil _ _ K)).
+  subst m4. unfold mtry, try_remove_top_route, mbind.
   assert (G : s_get_route m3 = (m3, Err)).
   { unfold s_get_route, typed_get. pose proof (get_header_hvals (s2b "Route") (m_headers m3)) as Eh.
-    rewrite <- E in Eh. destruct (get_header (s2b "Route") (m_headers m3)); [discriminate|reflexivity]. }
-  rewrite G. cbn [fst]. symmetry. exact E.
+    rewrite E in Eh. destruct (get_header (s2b "Route") (m_headers m3)); [discriminate|reflexivity]. }
+  rewrite G. cbn [fst]. exact E.
+Qed.
+
+Lemma process_message_request e peer port from rs tcp m x x' : is_request m = true ->
+  process_message e peer port from rs tcp m x = Ok x' ->
+  exists m4 x1, keeps NQ m m4 /\
+                (hvals (s2b "Route") (m_headers m) = [] -> hvals (s2b "Route") (m_headers m4) = []) /\
+                lb_eq (x_p x) (x_p x1) /\ x_outs x1 = x_outs x /\ x' = fst (handle_message e from m4 x1).
+Proof.
+  intros R. unfold process_message. rewrite R. cbn [andb].
+  set (ML := if negb (amem peer (ps_backends (x_p x))) then _ else _).
+  assert (K1 : keeps NP m (fst ML)).
+  { subst ML. destruct (negb _); [|apply keeps_refl].
+    pose proof (pres_all_via_params NP NP_novia m) as K. destruct (s_all_via_params m) as [m' vs]. exact K. }
+  destruct ML as [m1 l1]. cbn [fst] in K1.
+  assert (R1 : is_request m1 = true) by (rewrite (k_is_request NP m m1 K1); exact R).
+  rewrite R1. cbn [andb].
+  set (m2 := if rs then fst (s_set_received peer port m1) else m1).
+  assert (K2 : keeps NP m m2).
+  { subst m2. destruct rs; [|exact K1]. eapply keeps_trans; [exact K1|]. apply pres_set_received. apply NP_novia. }
+  assert (R2 : is_request m2 = true) by (rewrite (k_is_request NP m m2 K2); exact R).
+  clearbody m2. clear K1 R1 m1.
+  destruct tcp as [c|].
+  2:{ exact (pm_tail_spec e peer port from m2 (x_p x) l1 x x' m K2 R (lb_refl _)). }
+  rewrite R2.
+  pose proof (pres_try names _ (pres_next_response_hop names all_names_incl) m2) as K3.
+  destruct (mtry next_response_hop m2) as [m' hop]. cbn [fst] in K3.
+  assert (K03 : keeps NP m m') by (eapply keeps_trans; [exact K2|eapply keeps_incl; [apply NP_names|exact K3]]).
+  destruct hop as [oh| |]; try exact (pm_tail_spec e peer port from m' (x_p x) l1 x x' m K03 R (lb_refl _)).
+  match goal with |- context [match ?B with Ok _ => _ | Err => _ | Panic => _ end] => destruct B as [host| |] end.
+  2:{ discriminate. }
+  2:{ discriminate. }
+  destruct oh as [[[h0 pt] tr0]|]; [|exact (pm_tail_spec e peer port from m' (x_p x) l1 x x' m K03 R (lb_refl _))].
+  pose proof (pres_try names _ P_tid m') as K4.
+  destruct (mtry s_client_transaction m') as [m'' tid]. cbn [fst] in K4.
+  assert (K04 : keeps NP m m'') by (eapply keeps_trans; [exact K03|eapply keeps_incl; [apply NP_names|exact K4]]).
+  destruct tid as [[t|]| |]; try exact (pm_tail_spec e peer port from m'' (x_p x) l1 x x' m K04 R (lb_refl _)).
+  pose proof (lb_get_transport (now_s e) (s2b "tcp") host pt t (x_p x)) as G.
+  destruct (get_transport (now_s e) (s2b "tcp") host pt t (x_p x)) as [p1 rk]. cbn [fst] in G.
+  destruct rk as [key| |]; try exact (pm_tail_spec e peer port from m'' p1 l1 x x' m K04 R G).
+  apply (pm_tail_spec e peer port from m'' _ l1 x x' m K04 R).
+  eapply lb_trans; [exact G|apply lb_set_primary].
+Qed.
+
+Lemma is_my_message_start n from m m' : m_start m' = m_start m -> is_my_message n from m' = is_my_message n from m.
+Proof. unfold is_my_message. intros ->. reflexivity. Qed.
+
+(* HandleMessage on a request: relayed along a Route / static route, or handed to sendToBackend, or dropped *)
+Definition hop_result (e : env) (m : message) : res (bytes * Z * bytes) :=
+  snd (next_request_hop (c_keep_next_hop (e_cfg e)) (route_table_of (e_cfg e)) m).
+Definition for_service (e : env) (from : stransport) (m : message) : bool :=
+  match hop_result e m with Ok _ => false | _ => is_my_message (new_my_name (c_name (e_cfg e))) from m end.
+Lemma handle_message_request e from m x : is_request m = true ->
+  let x' := fst (handle_message e from m x) in
+  match hop_result e m with
+  | Ok _ => lb_eq (x_p x) (x_p x')
+  | _ => if is_my_message (new_my_name (c_name (e_cfg e))) from m
+         then exists m', keeps NQ m m' /\ x' = fst (send_to_backend e m' x)
+         else x' = x
+  end.
+Proof.
+  intros R. unfold handle_message, hop_result. rewrite R.
+  pose proof (pres_next_request_hop NQ (c_keep_next_hop (e_cfg e)) (route_table_of (e_cfg e)) NQ_noroute m) as K.
+  destruct (next_request_hop (c_keep_next_hop (e_cfg e)) (route_table_of (e_cfg e)) m) as [m1 r]. cbn [fst snd] in *.
+  rewrite (is_my_message_start _ from m m1 (proj1 K)).
+  destruct r as [[[host port] tr]| |].
+  - apply lb_send_message.
+  - destruct (is_my_message _ from m); [exists m1; split; [exact K|reflexivity]|reflexivity].
+  - destruct (is_my_message _ from m); [exists m1; split; [exact K|reflexivity]|reflexivity].
 Qed.
